@@ -114,3 +114,41 @@ theorem branch_eq_zero_iff (i : RcIn) : (rcTail i).branch = 0 ↔
   split_ifs <;> simp_all
 
 end QpTail
+
+namespace QpTail
+open CSem
+
+/-! ### `picture_qp` and `base_q_idx` determine each other (used by `C18.pictureQp_consistent`) -/
+
+theorem q2q_roundtrip_fin : ∀ n : Fin 64, shr (q2q (n.val : Int) + 2) 2 = if n.val = 63 then 64 else (n.val : Int) := by decide
+
+/-- `(quantizer_to_qindex[p] + 2) >> 2 = p` for `p < 63`, and `64` for `p = 63` (the table ends `…, 249, 255`). -/
+theorem q2q_roundtrip (p : Int) (h0 : 0 ≤ p) (h1 : p ≤ 63) : shr (q2q p + 2) 2 = if p = 63 then 64 else p := by
+  obtain ⟨n, rfl⟩ := Int.eq_ofNat_of_zero_le h0
+  have := q2q_roundtrip_fin ⟨n, by omega⟩
+  simp only at this
+  rw [this]
+  by_cases h : n = 63
+  · simp [h]
+  · rw [if_neg h, if_neg (by omega)]
+
+/-- …so clamping `(quantizer_to_qindex[p] + 2) >> 2` to `[min, max] ∋ p` gives `p` back. -/
+theorem clip_roundtrip (mn mx p : Int) (h0 : 0 ≤ mn) (h1 : mn ≤ p) (h2 : p ≤ mx) (h3 : mx ≤ 63) :
+    clip3 mn mx (shr (q2q p + 2) 2) = p := by
+  rw [q2q_roundtrip p (by omega) (by omega)]
+  unfold clip3
+  split_ifs <;> omega
+
+theorem qpFromQidx_eq (mn mx b : Int) (h0 : 0 ≤ mn) (h1 : mn ≤ mx) (h2 : mx ≤ 63) :
+    qpFromQidx mn mx b = clip3 mn mx (shr (b + 2) 2) := by
+  unfold qpFromQidx
+  rw [wrapI32_id mn (by omega) (by omega), wrapI32_id mx (by omega) (by omega)]
+  have hb := clip3_bounds mn mx (shr (b + 2) 2) h1
+  exact wrapU8_id _ (by omega) (by omega)
+
+theorem u8clip_consistent (mn mx x : Int) (h0 : 0 ≤ mn) (h1 : mn ≤ mx) (h2 : mx ≤ 63) :
+    wrapU8 (clip3 mn mx x) = clip3 mn mx (shr (q2q (wrapU8 (clip3 mn mx x)) + 2) 2) := by
+  have hb := u8clip_bounds mn mx x h0 h1 h2
+  exact (clip_roundtrip mn mx _ h0 hb.1 hb.2 h2).symm
+
+end QpTail
